@@ -316,6 +316,10 @@ def run(ctx):
               "stays on _current_stdout",
               "l = threading.Lock(); l.acquire(); l.acquire() under a 0.3 s limit: after run(threaded=True) returns, "
               "len(sandbox._current_stdout) == 1")
+    # R6: usable afterwards - a timed-out execution whose thread never unwinds leaves its buffer on the stack (known
+    # finding above); the next execution must still record its own output, not the abandoned one's
+    from .c15 import r2_per_execution
+    r2_per_execution(ctx, mod, sym, rule='R6')
     ctx.assume("actual wall-clock bounds and the behaviour of PyThreadState_SetAsyncExc for code that blocks in C or "
                "swallows exceptions are not decided; recognised synchronisation idioms: a with-lock around both "
                "accesses, an abandonment flag/generation token tested first in the student role")
